@@ -97,6 +97,9 @@ def get_days(date_field: np.ndarray,
     if date_filter is not None:
         if not isinstance(date_filter, np.ndarray) or date_filter.dtype not in (bool, np.int8):
             raise ValueError("'date_filter' must be a numpy array of type bool or np.int8")
+        if date_filter.dtype != bool:
+            # an int8 flag array must act as a mask, not as integer indices
+            date_filter = date_filter.astype(bool)
 
     if start_date is None and end_date is None and date_filter is None:
         min_date = date_field.min()
